@@ -469,7 +469,12 @@ func (f *farm) onRequest(c *callScript, via, to string, src *net.UDPAddr, send f
 		}
 	}
 	for j, s := range c.strays {
-		acts = append(acts, act{at: time.Duration(float64(f.tick)*(float64(s.rel)+0.22)) + time.Duration(j)*time.Millisecond, stray: true, cls: s.cls})
+		// (the strays of one tick leave between 0.22 and 0.42 of it, in script order - however many there are)
+		off := time.Duration(j) * time.Millisecond
+		if len(c.strays) > 8 {
+			off = time.Duration(j%100) * f.tick / 500
+		}
+		acts = append(acts, act{at: time.Duration(float64(f.tick)*(float64(s.rel)+0.22)) + off, stray: true, cls: s.cls})
 	}
 	sort.SliceStable(acts, func(i, j int) bool { return acts[i].at < acts[j].at })
 
